@@ -132,6 +132,26 @@ FramesThorough ==
     {[hdr |-> H0, blocks |-> <<History, b>>] : b \in {x \in Dev2 : Wf(x)}} \cup
     {[hdr |-> H0, blocks |-> <<History, b, c>>] : b \in {x \in Dev1 : Wf(x)}, c \in {x \in Follow : Wf(x)}}
 
+\* ---- deep tier: full products, values with many extra bits, chains of three dependent blocks --------------------
+\* literal lengths / match lengths / offsets in the upper code ranges (extra bits), with the literals they need
+BigMenus == {[lits |-> 20, seqs |-> << [ll |-> 17, ofv |-> 5, ml |-> 3] >>],                 \* literal-length code 16 (1 extra bit)
+             [lits |-> 40, seqs |-> << [ll |-> 35, ofv |-> 12, ml |-> 36] >>],                \* LL code 22, ML code 32
+             [lits |-> 3, seqs |-> << [ll |-> 1, ofv |-> 4, ml |-> 131] >>],                  \* ML code 43 (7 extra bits), overlapping copy
+             [lits |-> 70, seqs |-> << [ll |-> 64, ofv |-> 70, ml |-> 67] >>],                \* LL code 25 (6 extra bits), offset code 6
+             [lits |-> 3, seqs |-> << [ll |-> 1, ofv |-> 4, ml |-> 300], [ll |-> 0, ofv |-> 259, ml |-> 259] >>],   \* ML code 44 twice, offset 256
+             [lits |-> 300, seqs |-> << [ll |-> 300, ofv |-> 303, ml |-> 3] >>]}              \* LL code 27 (8 extra bits), offset 300
+ModeTriples == {<<a, b, c>> : a \in Modes \ {"repeat"}, b \in Modes \ {"repeat"}, c \in Modes \ {"repeat"}}
+\* (the reference decoder refuses four streams for fewer than 6 literals: at least 8 everywhere)
+DeepBig == {[Default EXCEPT !.lit = l, !.lbytes = LitBytes(IF m.lits + 2 < 8 THEN 8 ELSE m.lits + 2), !.seqs = m.seqs, !.modes = t] :
+               m \in BigMenus, l \in {"raw", "rle", "huf1", "huf4"}, t \in ModeTriples}
+DeepProduct == {[Default EXCEPT !.lit = l, !.lbytes = LitBytes(8), !.seqs = q, !.modes = t] :
+               l \in {"raw", "rle", "huf1", "huf4"}, q \in SeqMenus, t \in ModeTriples}
+ChainHeads == {x \in Dev1 : Wf(x) /\ x.lit \in {"raw", "huf1"} /\ x.seqs = <<Seq1>> /\ x.fmt = -1}
+FramesDeep ==
+    FramesThorough \cup
+    {[hdr |-> H0, blocks |-> <<History, b>>] : b \in {x \in DeepBig \cup DeepProduct : Wf(x)}} \cup
+    {[hdr |-> H0, blocks |-> <<History, b, c, d>>] : b \in ChainHeads, c \in {x \in Follow : Wf(x)}, d \in {x \in Follow : Wf(x)}}
+
 Row(f) == LET m == Meaning(f) IN [frame |-> f, ok |-> m.ok, content |-> m.out, rep |-> m.rep]
 
 \* ---- C09: frames over a dictionary (content DictContent, repeat offsets DictRep; both given by the harness) -----------
@@ -157,7 +177,7 @@ Init == x = 0
 Next == /\ x = 0 /\ x' = 1
         /\ Assert(FormatTheorems, "ZstdFormat theorems do not hold")
         /\ LET rows == IF Tier = "dict" THEN SetToSeq({RowD(f) : f \in FramesDict})
-                       ELSE SetToSeq({Row(f) : f \in (IF Tier = "quick" THEN FramesQuick ELSE FramesThorough)})
+                       ELSE SetToSeq({Row(f) : f \in (IF Tier = "quick" THEN FramesQuick ELSE IF Tier = "deep" THEN FramesDeep ELSE FramesThorough)})
            IN ndJsonSerialize("zf_cases.ndjson", rows)
               /\ PrintT(<<"frames", Len(rows), "valid", Cardinality({i \in 1..Len(rows) : rows[i].ok})>>)
 Spec == Init /\ [][Next]_x
